@@ -55,7 +55,10 @@ def parse(text, fam=None):
         return None
     trig = {r: sorted(e for e in exprs if e)
             for r, exprs in gp.triggers.items()}
-    return trig, dict(gp.task_output_opt)
+    # (is-optional only: the other two fields - family default, fixed - are
+    # parser-internal, depend on the order pairs happen to be processed in,
+    # and are not read by WorkflowConfig.set_required_outputs)
+    return trig, {k: (v[0],) for k, v in gp.task_output_opt.items()}
 
 
 def formula(exprs, env):
